@@ -189,7 +189,7 @@ struct Sub {
 // ----------------------------------------------------- crash-time replay dump
 // Sanitizer reports abort the process: the case being executed is kept in a
 // static buffer and written out by the sanitizer death callback.
-extern "C" void __sanitizer_set_death_callback(void (*)(void));
+extern "C" void __sanitizer_set_death_callback(void (*)(void)) __attribute__((weak));
 struct CurCase { char path[512]; char text[1 << 16]; size_t len; bool armed; std::string (*lazy)(const void *); const void *lazyArg; };
 inline CurCase &curCase() { static CurCase c; return c; }
 inline void deathCb() {
@@ -240,6 +240,15 @@ inline std::string writeReplay(const Opt &o, const std::string &sub, const std::
 inline void failEnum(const Opt &o, Ev &ev, const std::string &sub, const std::string &replayText, const std::string &msg) {
     std::string path = writeReplay(o, sub, "sub=" + sub + "\n" + replayText);
     ev.failures.push_back({sub, path, msg});
+}
+
+// listed findings that still reproduce are passed by the driver in VERIF_KNOWN (comma separated ids);
+// generators then steer away from that class by construction and count what they excluded
+inline bool knownActive(const char *id) {
+    const char *e = getenv("VERIF_KNOWN");
+    if (!e) return false;
+    std::string s = std::string(",") + e + ",";
+    return s.find(std::string(",") + id + ",") != std::string::npos;
 }
 
 // ------------------------------------------------------------ rapidcheck run
